@@ -1857,7 +1857,16 @@ impl<E: Effect> Executor<E> {
                         .ok_or(Error::FunctionUndefined(function_index))?;
 
                     let frame = proc.frames.last().ok_or(Error::FrameUnderflow)?;
-                    let locals_base = frame.locals_base;
+                    // The bottom frame of a persistent (REPL) process holds the session's
+                    // bindings as its locals: a tail call from there must leave them in place
+                    // (`5 ^f` on a REPL line used to wipe every variable of the session). The
+                    // callee's captures and locals go on top of them.
+                    let keeps_session_locals = proc.persistent && proc.frames.len() == 1;
+                    let locals_base = if keeps_session_locals {
+                        proc.locals.len()
+                    } else {
+                        frame.locals_base
+                    };
 
                     // Clear current frame's locals (releasing the old captures/bindings).
                     self.truncate_locals(proc, locals_base);
